@@ -114,6 +114,9 @@ func (h *Hist) checkRet(ret any, n *Node) {
 	if h.dead {
 		return
 	}
+	if n.Derived > 0 {
+		h.counters["probe:fluent-on-derived-"+h.curOp]++
+	}
 	if ret != n.Impl {
 		own := h.curOwner
 		if n.Derived > 0 {
@@ -438,8 +441,13 @@ func opNewDerived(h *Hist) {
 		n.Derived = 1 + kind
 		k := h.d.Draw("n-values", 4)
 		var gvs []any
+		homog := h.d.Draw("derived-homogeneous", 4) == 0
 		for i := 0; i < k; i++ {
 			gv, mv := h.genVal(nil, false)
+			if homog {
+				mv = mInt(intPool[h.d.Draw("int", len(intPool))])
+				gv = mv.goValue()
+			}
 			gvs = append(gvs, gv)
 			n.Elems = append(n.Elems, mv)
 		}
@@ -1842,7 +1850,29 @@ func opKeysValues(h *Hist) {
 		return
 	}
 	if k := h.byPtr[ptrOf(l)]; k != nil {
-		h.fail("result-not-fresh", name, []string{"C09"}, fmt.Sprintf("%s returned the existing container %s", name, k.Name))
+		// not a new list (C09); if in addition it no longer describes the field set, C06 is broken as well
+		own := []string{"C09"}
+		if l.Count() != len(n.Fields) {
+			own = []string{"C09", "C06"}
+		} else {
+			seen := map[string]int{}
+			for i := 0; i < l.Count(); i++ {
+				seen[canon(l.Get(i), nil)]++
+			}
+			for _, key := range n.keys() {
+				if name == "Keys" {
+					seen[canon(key, nil)]--
+				} else {
+					seen[canon(n.Fields[key].goValue(), nil)]--
+				}
+			}
+			for _, c := range seen {
+				if c != 0 {
+					own = []string{"C09", "C06"}
+				}
+			}
+		}
+		h.fail("result-not-fresh", name, own, fmt.Sprintf("%s returned the existing container %s (%s) instead of a new list", name, k.Name, short(canon(l, nil), 100)))
 		return
 	}
 	r := h.newNode(false, name)
